@@ -180,7 +180,11 @@ def dump_uri(uri_value, version=LATEST_VER):
 
 
 def dump_bin(bin_value, version=LATEST_VER):
-    return 'Bin(%s)' % bin_value
+    if version < VER_3_0:
+        return 'Bin(%s)' % bin_value
+    # Project Haystack 3.0 has no Bin literal of its own: a Bin is written as
+    # the extended string Bin("mime/type").
+    return 'Bin(%s)' % dump_str(bin_value, version=version)
 
 
 def dump_xstr(xstr_value, version=LATEST_VER):
